@@ -25,7 +25,8 @@ class LoopSpec:
     by the invariant.
     """
 
-    def __init__(self, inv, fresh=None, label=None, unroll=False, shapes=None, hints=None):
+    def __init__(self, inv, fresh=None, label=None, unroll=False, shapes=None, hints=None, modifies=()):
+        self.modifies = tuple(modifies)   # attribute paths written by callees inside the loop (checked by the frame check)
         self.hints = hints    # hints(view) -> [(label, premise, conclusion)]: prove premise, then assume conclusion
         self.inv = inv
         self.fresh = fresh or {}
@@ -457,7 +458,7 @@ class Interp:
             if nm in state.env and isinstance(state.env[nm], Ref) and state.env[nm].kind == "arr":
                 v = state.env[nm]
                 state.set_arr(v, fresh_arr(state.arr(v).shape, state.arr(v).sort, nm))
-        for path in sorted(attrs):
+        for path in sorted(attrs | set(spec.modifies if spec else ())):
             parts = path.split(".")
             if parts[0] not in state.env:
                 continue
@@ -472,6 +473,29 @@ class Interp:
                 state.set_arr(cur, fresh_arr(state.arr(cur).shape, state.arr(cur).sort, parts[-1]))
             else:
                 state.cell(obj)[parts[-1]] = self.havoc_value(state, cur, parts[-1], spec)
+
+    def heap_snapshot(self, state):
+        return {oid: dict(c) for oid, c in state.heap.items()}
+
+    def frame_check(self, snap_head, state, body, spec, node):
+        """Soundness of the loop rule: everything the body changed in the heap must have been havocked."""
+        rebound, inplace, attrs = self.assigned_names(body)
+        allowed_attr = {p.split(".")[-1] for p in (attrs | set(spec.modifies if spec else ()))}
+        for oid, c in state.heap.items():
+            old = snap_head.get(oid)
+            if old is None:
+                continue    # allocated inside the body
+            for k, v in c.items():
+                if k in old and old[k] is not v:
+                    if k == "val":
+                        continue   # array contents: covered through the owning variable/attribute below
+                    if k in ("__list__", "__dict__"):
+                        if old[k] != v:
+                            raise Unsupported(f"loop at line {node.lineno} mutates a container that the loop rule did not havoc")
+                        continue
+                    if k not in allowed_attr:
+                        raise Unsupported(f"loop at line {node.lineno} modifies attribute '{k}' that is not in the loop's "
+                                          f"modifies set (callee side effect): add it to LoopSpec.modifies")
 
     def _plain_rebound(self, body, name):
         for n in ast.walk(ast.Module(body=list(body), type_ignores=[])):
@@ -538,6 +562,7 @@ class Interp:
         self.havoc_loop(head, s.body, spec)
         self.inv_assume(spec, View(self, head, pre=pre))
         exits, others = [], []
+        snap = self.heap_snapshot(head)
 
         def k(st, v):
             c = self.truth(v, st)
@@ -551,6 +576,7 @@ class Interp:
             if c is not False and (c is True or self.feasible(st, c)):
                 st.assume(c)
                 for o in self.exec_block(s.body, st, module):
+                    self.frame_check(snap, o.state, s.body, spec, s)
                     if o.kind in ("fall", "continue"):
                         self.inv_check(spec, View(self, o.state, pre=pre), f"{tag}-inv-preserved", s)
                     elif o.kind == "break":
@@ -631,7 +657,9 @@ class Interp:
         body_st.assume(kk < n_z)
         if self.feasible(body_st):
             self.assign(s.target, elem(kk), body_st, module)
+            snap = self.heap_snapshot(body_st)
             for o in self.exec_block(s.body, body_st, module):
+                self.frame_check(snap, o.state, s.body, spec, s)
                 if o.kind in ("fall", "continue"):
                     self.inv_check(spec, View(self, o.state, k=kk + 1, pre=pre),
                                    f"{tag}-inv-preserved", s)
